@@ -29,12 +29,27 @@ Proof.
   now rewrite powmod_spec.
 Qed.
 
-Lemma modpow_fast b e m : 0 < m -> 0 < e -> Z.odd m = true -> modpow Fast b e m = Ok ((b ^ e) mod m).
+Lemma modpow_fast b e m : 0 < m -> 0 <= e -> modpow Fast b e m = Ok ((b ^ e) mod m).
 Proof.
-  intros Hm He Ho. unfold modpow.
-  replace (e <=? 0) with false by lia. replace (m <=? 0) with false by lia.
-  rewrite <- Z.negb_odd, Ho. cbn [negb orb]. now rewrite powmod_spec by lia.
+  intros Hm He. unfold modpow, pow_mod_unwrap.
+  replace (m =? 0) with false by lia. replace (e <? 0) with false by lia. cbn [orb].
+  rewrite powmod_spec by lia. destruct ((e <=? 0) || Z.even m); reflexivity.
 Qed.
+
+(* the two back ends agree on every non-negative exponent and modulus (both panic on modulus 0) *)
+Theorem modpow_backends_agree b e m : 0 <= e -> 0 <= m -> modpow Fast b e m = modpow Default b e m.
+Proof.
+  intros He Hm. unfold modpow, pow_mod_unwrap. destruct ((e <=? 0) || Z.even m) eqn:E; [reflexivity|].
+  apply orb_false_iff in E. destruct E as [E1 E2].
+  assert (Hm0 : (m =? 0) = false) by (destruct (Z.eqb_spec m 0) as [->|]; [discriminate E2|reflexivity]).
+  rewrite Hm0. replace (e <? 0) with false by lia. reflexivity.
+Qed.
+
+(* the pinned body disagreed exactly where secure_pow_mod's preconditions fail *)
+Theorem modpow_fast_v070_refuted :
+  modpow_fast_v070 7 0 11 = Panic /\ modpow Default 7 0 11 = Ok 1 /\ modpow Fast 7 0 11 = Ok 1 /\
+  modpow_fast_v070 7 5 10 = Panic /\ modpow Default 7 5 10 = Ok 7 /\ modpow Fast 7 5 10 = Ok 7.
+Proof. repeat split; reflexivity. Qed.
 
 (* ---- byte encodings ---- *)
 Lemma nbytes_bound a : 0 < a -> a < 256 ^ Z.of_nat (nbytes a).
